@@ -154,7 +154,7 @@ def read_model_initial_conditions(
                 compi = compi - 1
 
         # Store adjusted field capacity values
-        InitCond.th_fc_Adj = np.round(thfcAdj, 3)
+        InitCond.th_fc_Adj = thfcAdj
 
     profile["th_fc_Adj"] = np.round(InitCond.th_fc_Adj, 3)
 
